@@ -2,7 +2,7 @@
    Statements only; proofs in Proofs/StatusP.v.  [report f universe roots D] mirrors
    handlers/status.rs::status_drift_report; [universe] is the list of paths the extras scan ranges
    over (every existing file is in it). *)
-From AP Require Import Base.Str Gen.Tables Model.Deploy Model.Status Proofs.DeployP Proofs.StatusP.
+From AP Require Import Base.Str Gen.Tables Model.Deploy Model.Status Proofs.DeployP Proofs.StatusP Proofs.StatusCmdP.
 Open Scope N_scope.
 
 (* soundness and completeness: an item is reported iff the classification of the property holds:
@@ -46,6 +46,23 @@ Theorem C16_only_empty : forall l, filter_only [] l = l.
 Proof. exact filter_only_nil. Qed.
 Print Assumptions C16_only.
 Print Assumptions C16_only_empty.
+
+(* the command as a whole ([status_cmd]: report, then --only, then the summaries): what is listed is the --only subset
+   of the report; the overall summary AND every per-(target, root) summary count exactly the LISTED items (one entry per
+   group that has a listed item, none else); summary_total — present only with --only — counts the unfiltered report *)
+Theorem C16_status_cmd : forall only f U roots D,
+  let o := status_cmd only f U roots D in
+  let all := report f U roots D in
+  so_drift o = filter_only only all /\
+  so_summary o = drift_summary (so_drift o) /\
+  (forall g s, In (g, s) (so_by_root o) ->
+     s = drift_summary (filter (same_root (fst g) (snd g)) (so_drift o)) /\
+     exists it, In it (so_drift o) /\ same_root (fst g) (snd g) it = true) /\
+  (forall it, In it (so_drift o) -> exists s, In ((i_target it, i_root it), s) (so_by_root o)) /\
+  NoDup (map fst (so_by_root o)) /\
+  so_total o = match only with [] => None | _ => Some (drift_summary all) end.
+Proof. exact status_cmd_spec. Qed.
+Print Assumptions C16_status_cmd.
 
 (* non-vacuity: nested roots (codex home ⊃ prompts), one modified, one missing, one managed-but-not-
    desired extra, one scanned extra, a manifest file that is not reported *)
